@@ -327,13 +327,21 @@ def check_paging(F, G7):
                         break
             if counter:
                 break
-        if counter is None:
+        E2 = ExprBuilder(cfg, fold_named=True)    # `let cur = i; .. msgs[cur]` examines position i as well
+        # form B: `for pos in start..len { cont = pos + 1; .. examine msgs[pos] .. }` - the loop variable comes from a range
+        # iterator, the continuation is a separate local that is set to pos + 1 in every iteration that examines pos
+        rl = range_loop_form(b, cfg, E, E2, loops) if counter is None else None
+        if counter is None and rl is None:
             continue
+        elem = None
+        fetch_blocks = set()
+        if rl is not None:
+            hd, elem, counter, fetch_blocks = rl['head'], rl['elem'], rl['cont'], rl['fetch']
         lbody = loops[hd]
         exams = {}
-        E2 = ExprBuilder(cfg, fold_named=True)    # `let cur = i; .. msgs[cur]` examines position i as well
+        idx_name = elem or counter
 
-        def is_counter(op):
+        def is_counter(op, counter=idx_name):
             if E.operand(op) == ('place', counter) or E2.operand(op) == ('place', counter):
                 return True
             # `let idx = if filtered { table[cur] } else { cur }`: one definition of the index local is the counter itself
@@ -357,7 +365,7 @@ def check_paging(F, G7):
             continue
         n += 1
         G7.fn(b.path)
-        cl = b.locals_named(counter)
+        cl = b.locals_named(counter) if rl is None else [rl['cont_local']]
         incs = set()
         for blk in b.blocks:
             if blk.cleanup:
@@ -365,10 +373,28 @@ def check_paging(F, G7):
             for s in blk.stmts:
                 if s.k == 'assign' and s.place.is_local and s.place.l in cl:
                     e = E.rvalue(s.rv)
-                    if e == ('bin', 'Add', ('place', counter), ('const', 1)):
+                    if e == ('bin', 'Add', ('place', idx_name), ('const', 1)):
                         incs.add(blk.i)
+                    elif rl is not None and not (blk.i not in lbody and E2.rvalue(s.rv) == rl['start']):
+                        # form B: the continuation local may only be `range start` before the loop and `pos + 1` inside it
+                        incs.add(('other', blk.i, show(e)[:40]))
+        other_defs = [x for x in incs if isinstance(x, tuple)]
+        incs = set(x for x in incs if not isinstance(x, tuple))
 
         def block_effect(blk, facts):
+            if blk.i in fetch_blocks:
+                # a new position is pulled from the range: the previous one, if examined, must have been recorded exactly once
+                if ('exam',) in facts and pairing.count(facts, 'inc') != 1:
+                    facts = frozenset(facts | {('bad',)})
+                facts = pairing.reset(frozenset(f for f in facts if f != ('exam',)), ['inc'])
+            if blk.i in exams:
+                facts = frozenset(facts | {('examined',)})
+            if rl is not None:
+                if blk.i in exams:
+                    facts = frozenset(facts | {('exam',)})
+                if blk.i in incs:
+                    facts = pairing.bump(facts, 'inc')
+                return facts
             if blk.i in exams:
                 facts = pairing.reset(facts, ['inc'])
                 facts = frozenset(facts | {('exam',)})
@@ -394,11 +420,16 @@ def check_paging(F, G7):
         # the counter must have been advanced exactly once since the last examination on every path reaching a continuation site
         for (blk, s_, inner) in conts:
             for st in ex.states.get(blk.i, ()):
-                if ('exam',) in st[1]:
+                if ('examined',) in st[1]:
                     nstates += 1
+                if ('exam',) in st[1]:
                     k = pairing.count(st[1], 'inc')
                     if k != 1:
                         bad = (blk.i, st, k)
+                if ('bad',) in st[1]:
+                    bad = (blk.i, st, 0)
+        if other_defs:
+            bad = (other_defs[0][1], None, -1)
         advanced_once = bad is None and nstates > 0
         G7.sites += len(conts) + len(exams)
         if not conts:
@@ -412,7 +443,10 @@ def check_paging(F, G7):
                              'search paging: on every exit of the search loop `%s` already denotes the first unexamined position (advanced exactly once after each examined element), but the continuation returned is %s: '
                              'the next page skips stream position(s)' % (counter, show(inner)), where=b.loc(s.sp))
             else:
-                x, st, k = bad
+                x, st, k = bad if bad is not None else (None, None, -2)
+                if k < 0:
+                    G7.violation(('counter-advance', b.path, 'other-def' if k == -1 else 'no-exam'), 'search paging: the continuation `%s` is %s' % (counter, ('also assigned %s' % other_defs[0][2]) if k == -1 else 'never reached after an examination'), where=b.loc(None))
+                    continue
                 G7.violation(('counter-advance', b.path, 'inc%d' % k), 'search paging: the loop counter `%s` is advanced %d times between examining an element and leaving the loop on some path' % (counter, k),
                              where=b.loc(None), witness={'block_path': ex.witness(x, st)[-30:]})
         # "finished" (no continuation) may only be answered when the counter reached the *stream length*: the value the
@@ -460,6 +494,43 @@ def check_paging(F, G7):
     G7.floor('search functions with an examination loop', n, 1)
 
 
+def range_loop_form(b, cfg, E, E2, loops):
+    """`for pos in start..end { .. cont = pos + 1 .. }`: {'head', 'elem' (name of pos), 'cont' (name), 'fetch' (blocks calling next), 'start'}"""
+    for h, body_ in sorted(loops.items(), key=lambda x: -len(x[1])):
+        for blk_i in sorted(body_):
+            t = b.blocks[blk_i].term
+            if not (t.k == 'call' and t.callee.path == 'std::iter::Iterator::next' and t.args and 'std::ops::Range<' in (t.args[0].ty or '') and t.dest.is_local):
+                continue
+            x = E2.operand(t.args[0])
+            for _ in range(8):
+                if isinstance(x, tuple) and x[0] == 'ref':
+                    x = x[1]
+                elif isinstance(x, tuple) and x[0] == 'proj' and len(x) == 2:
+                    x = x[1]
+                elif isinstance(x, tuple) and x[0] == 'call' and x[1].endswith('IntoIterator::into_iter') and x[2]:
+                    x = x[2][0]
+            if not (isinstance(x, tuple) and x[0] == 'agg' and x[1].endswith('Range::Range') and len(x[2]) == 2):
+                continue
+            elem = None
+            for q in body_:
+                for s in b.blocks[q].stmts:
+                    if s.k == 'assign' and s.place.is_local and b.name_of(s.place.l) and s.rv['k'] == 'use':
+                        o = Operand(s.rv['o'])
+                        if o.place is not None and o.place.l == t.dest.l and [e['k'] for e in o.place.p] == ['dc', 'f']:
+                            elem = b.name_of(s.place.l)
+            if elem is None:
+                continue
+            cont = cont_l = None
+            for q in body_:
+                for s in b.blocks[q].stmts:
+                    if s.k == 'assign' and s.place.is_local and b.name_of(s.place.l) and E.rvalue(s.rv) == ('bin', 'Add', ('place', elem), ('const', 1)):
+                        cont, cont_l = b.name_of(s.place.l), s.place.l
+            if cont is None:
+                continue
+            return {'head': h, 'elem': elem, 'cont': cont, 'cont_local': cont_l, 'fetch': {blk_i}, 'start': x[2][0]}
+    return None
+
+
 # ---------------------------------------------------------------------------------------------
 # G8: the index builder marks as processed exactly what it filtered
 
@@ -502,22 +573,49 @@ def check_builder_progress(F, G8):
                 under = any(t is True and isinstance(c, tuple) and c[0] == 'place' and c[-1] == '.filters_active' for (c, t, D) in guards.known(cfg, E, blk.i))
                 if not under:
                     continue
-                n += 1
-                G8.sites += 1
-                e = E.rvalue(s.rv)
-                ok = False
-                if isinstance(e, tuple) and e[0] == 'bin' and e[1] == 'Add' and e[2] == ('place', off_param) and e[3] in ends:
-                    ok = 'offset + end of a filtered slice'
-                se = show(e)
-                if not ok and 'Index::index(' in se and 'Fn::call(' in se and '{closure#' in se and not se.startswith('Add('):
-                    ok = 'index of the first unwanted match taken from the matcher result'
-                if ok:
-                    G8.ok(sample={'store_at': b.loc(s.sp), 'value': se[:110], 'why': ok})
-                else:
-                    G8.violation(('progress-beyond-filtered', b.path, re.sub(r'[^A-Za-z_]+', '_', se)[:50]),
-                                 'the index builder sets all_msgs_last_processed_len = %s at %s: not offset + end of a slice that was actually filtered (filtered slice ends: %s) - messages beyond the filtered chunk are marked processed and never reach the filtered index' %
-                                 (se[:100], b.loc(s.sp), [show(x)[:50] for x in ends]), where=b.loc(s.sp))
+                # `marker = if fits { offset + end } else { first_unwanted }`: judge every definition of the stored temp
+                vals = [(E.rvalue(s.rv), s)]
+                if s.rv['k'] == 'use':
+                    o_ = Operand(s.rv['o'])
+                    if o_.place is not None and o_.place.is_local and not o_.place.p and len(cfg.defs.get(o_.place.l, [])) > 1 and \
+                            all(si_ != 'call' for (_b, si_, _d) in cfg.defs[o_.place.l]):
+                        vals = [(E.rvalue(d_.rv), d_) for (_b, si_, d_) in cfg.defs[o_.place.l]]
+                for (e, s) in vals:
+                    n += 1
+                    G8.sites += 1
+                    ok = False
+                    if isinstance(e, tuple) and e[0] == 'bin' and e[1] == 'Add' and e[2] == ('place', off_param) and e[3] in ends:
+                        ok = 'offset + end of a filtered slice'
+                    se = show(e)
+                    if not ok and not se.startswith('Add(') and from_matcher_result(F, e):
+                        ok = 'index of the first unwanted match taken from the matcher result'
+                    if ok:
+                        G8.ok(sample={'store_at': b.loc(s.sp), 'value': se[:110], 'why': ok})
+                    else:
+                        G8.violation(('progress-beyond-filtered', b.path, re.sub(r'[^A-Za-z_]+', '_', se)[:50]),
+                                     'the index builder sets all_msgs_last_processed_len = %s at %s: not offset + end of a slice that was actually filtered (filtered slice ends: %s) - messages beyond the filtered chunk are marked processed and never reach the filtered index' %
+                                     (se[:100], b.loc(s.sp), [show(x)[:50] for x in ends]), where=b.loc(s.sp))
     G8.floor('progress stores under filters_active in the index builder', n, 3)
+
+
+def from_matcher_result(F, e):
+    """is `e` an element of the index vector returned by the matcher: Index::index(&<call of a closure / crate function
+    returning Vec<usize>>, ..)"""
+    for x in walk(e):
+        if isinstance(x, tuple) and x and x[0] == 'call' and x[1].endswith('Index::index') and x[2]:
+            src = x[2][0]
+            for _ in range(6):
+                if isinstance(src, tuple) and src[0] in ('ref', 'cast'):
+                    src = src[1]
+                elif isinstance(src, tuple) and src[0] == 'proj' and (len(src) == 2 or all(p_ == '*' for p_ in src[2:])):
+                    src = src[1]
+            if isinstance(src, tuple) and src[0] == 'call':
+                if src[1] in ('std::ops::Fn::call', 'std::ops::FnMut::call_mut') and '{closure#' in show(src):
+                    return True
+                H = F.get(src[1])
+                if H is not None and H.ret_type().startswith('std::vec::Vec<usize'):
+                    return True
+    return False
 
 
 # ---------------------------------------------------------------------------------------------
